@@ -4,6 +4,7 @@ Contract at the run_sim boundary of both simulators (to_dict snapshot before / a
 history oracle run 1 / reset_initial_values / run 2 and equal-model oracles (deepcopy, pickle,
 dict round trip).
 """
+import os
 import copy
 import json
 import pickle
@@ -32,7 +33,7 @@ CASE_TIMEOUT = {'quick': 180, 'thorough': 400}
 
 
 # appended to RULE in the evidence (vlib/runner.py)
-RULE_ADDENDUM = 'Added in rounds 4-5: every second case reuses one simulator object across resets; junction / zone isolation schedules; the model edited after its runs (pump curve points, roughness, base demand), reset and compared with an equal model rebuilt from its dictionary. Round 6: options.report.nodes / links as shuffled name lists in 35 % of the cases. Round 7: every third EPANET definition check runs with version=2.0.'
+RULE_ADDENDUM = 'Added in rounds 4-5: every second case reuses one simulator object across resets; junction / zone isolation schedules; the model edited after its runs (pump curve points, roughness, base demand), reset and compared with an equal model rebuilt from its dictionary. Round 6: options.report.nodes / links as shuffled name lists in 35 % of the cases. Round 7: every third case also writes the model as an EPANET 2.0 file (write_inpfile(version=2.0)) and re-checks the definition.'
 
 def n_cases(tier):
     return base_cases(tier) + len(suite.files(tier))     # + the repository's own tests under the monitor (vlib/props/suite.py)
@@ -187,14 +188,25 @@ def run_case(c, rng):
             # 'ALL' is a WNTRSimulator reporting mode (the INP writer cannot express it): give the EPANET run a numeric report step
             wn.options.time.report_timestep = wn.options.time.hydraulic_timestep
             d0 = norm(wn.to_dict())
-        ver = 2.0 if c.index % 3 == 0 else 2.2        # the INP format version is a public argument of EpanetSimulator.run_sim
-        te = simobs.run_epanet(wn, version=ver)
-        if ver == 2.0:
-            c.count('epanet_runs_with_version_2_0')
+        te = simobs.run_epanet(wn)
         if te.exception is None:
-            dict_check('EpanetSimulator run (version=%s)' % ver, 'epanet_dict_checks')
+            dict_check('EpanetSimulator run', 'epanet_dict_checks')
         else:
             c.count('epanet_errors')
+        if c.index % 3 == 0:
+            # the INP format version is a public argument of EpanetSimulator.run_sim and write_inpfile.  Only the writing half is
+            # exercised for 2.0 (that is where the model is read): the EPANET 2.0 shared library itself crashed with SIGSEGV in three
+            # workers of one thorough sweep (not reproducible per case) - third-party native code that C11 does not judge, see DESIGN §5
+            import tempfile
+            d_ = tempfile.mkdtemp(prefix='verif_inp20_')
+            try:
+                wntr.network.write_inpfile(wn, os.path.join(d_, 'v20.inp'), version=2.0)
+                dict_check('write_inpfile(version=2.0)', 'inp_2_0_write_dict_checks')
+            except Exception:
+                c.count('inp_2_0_write_errors')
+            finally:
+                import shutil
+                shutil.rmtree(d_, ignore_errors=True)
     c.nontrivial = nontrivial
     # The model is edited after it has been simulated (pump curve re-calibrated through Curve.points, a pipe's roughness, a
     # base demand), reset, and compared with an equal model that never ran (rebuilt from the edited model's dictionary): whatever
